@@ -275,6 +275,34 @@ func genC16(r *Run) {
 		} else {
 			r.Add(eV6Inner, rr.ToBytes())
 		}
+		// (3b) the chain is a live value: after it has been encoded (or decoded), a change of the innermost message
+		// through the pointer the API hands out shows in the next encoding
+		for _, c := range []dhcpv6.DHCPv6{chain, mustDecode(cw)} {
+			if c == nil {
+				continue
+			}
+			_ = c.ToBytes()
+			im, err := c.GetInnerMessage()
+			if err != nil {
+				continue
+			}
+			old := im.TransactionID
+			im.TransactionID = dhcpv6.TransactionID{old[0] ^ 0xff, old[1] ^ 0x0f, old[2] ^ 0xf0}
+			im.AddOption(&dhcpv6.OptionGeneric{OptionCode: 4002, OptionData: []byte{1, 2, 3}})
+			want := dumpLine(dumpMsg(im))
+			back := mustDecode(c.ToBytes())
+			var got string
+			if back != nil {
+				if bi, err := back.GetInnerMessage(); err == nil {
+					got = dumpLine(dumpMsg(bi))
+				}
+			}
+			if got != want {
+				r.Fail("inner-message-edit-not-encoded", trunc(cs, 2000), "after an earlier encoding, an edit of the innermost message is missing from the next encoding: "+firstDiff(want, got))
+			}
+			im.TransactionID = old
+			im.Options.Del(dhcpv6.OptionCode(4002))
+		}
 		// (4) builders keep the transaction id / echo identifiers
 		oracleBuilders(r, inner, iw)
 	}
